@@ -28,7 +28,7 @@ import (
 // server must be detected no earlier than one timeout after the last send.
 
 type c18Step struct {
-	Kind  string // single | batch | early | cancelled (batch) | cancelled-single (unbatched calls) | ooo | idle | silent
+	Kind  string // single | batch | early | cancelled (batch) | cancelled-single (unbatched calls) | ooo | race-clear | idle | silent
 	N     int
 	Delay time.Duration
 }
@@ -52,7 +52,7 @@ func (c c18Case) String() string {
 func genC18Case(r *rand.Rand, realtime bool) c18Case {
 	cs := c18Case{Seed: r.Int63(), Timeout: []time.Duration{100 * time.Millisecond, 300 * time.Millisecond}[r.Intn(2)],
 		Queue: []int{1, 2, 100}[r.Intn(3)], Full: r.Intn(3) == 0}
-	kinds := []string{"single", "single", "batch", "early", "early", "cancelled", "cancelled-single", "ooo"}
+	kinds := []string{"single", "single", "batch", "early", "early", "cancelled", "cancelled-single", "ooo", "race-clear"}
 	for i, n := 0, 3+r.Intn(8); i < n; i++ {
 		cs.Steps = append(cs.Steps, c18Step{Kind: kinds[r.Intn(len(kinds))], N: 1 + r.Intn(5)})
 	}
@@ -79,6 +79,8 @@ func runC18Case(c *fw.Ctx, id string, cs c18Case) {
 	var lastWriteReturn atomic.Value
 	var silent int32
 	var hold atomic.Value // chan struct{} for ooo/held replies
+	var clearHook atomic.Value // func(): runs inside the connection's "clear the read deadline" call
+	clearHook.Store(func() {})
 	cl.OnRequest = func(req *sim.Request) *sim.Reply {
 		if atomic.LoadInt32(&silent) == 1 && (req.Single == nil || req.Single.OpID != "") && req.Scan == nil {
 			return &sim.Reply{Drop: true}
@@ -97,6 +99,11 @@ func runC18Case(c *fw.Ctx, id string, cs c18Case) {
 	wrap := func(addr string, conn net.Conn) net.Conn {
 		fc := faultconn.New(conn, nil)
 		fc.AfterRead = func(int) { atomic.AddInt64(&reads, 1) }
+		fc.BeforeSetReadDeadline = func(t time.Time) {
+			if t.IsZero() {
+				clearHook.Load().(func())()
+			}
+		}
 		fc.BeforeWriteReturn = func(int) {
 			if atomic.CompareAndSwapInt32(&forceEarly, 1, 0) {
 				// hold the writer inside Write until the response has been read
@@ -314,6 +321,89 @@ func runC18Case(c *fw.Ctx, id string, cs c18Case) {
 			if !quiescent(where) {
 				return
 			}
+		case "race-clear":
+			// The connection becomes idle (response to A read, deadline about to
+			// be cleared) at the very moment another request B is sent, and B is
+			// not answered: once things settle B's deadline must be armed.
+			callA := mkCall(context.Background(), true)
+			opidA := fmt.Sprintf("%s%s-%d", sim.OpIDPrefix, id, opn)
+			callB := mkCall(context.Background(), true)
+			h := make(chan struct{})
+			var fired int32
+			var holdStart time.Time
+			bDone := make(chan []error, 1)
+			clearHook.Store(func() {
+				// only the clearing call that follows A's response (not one that
+				// follows a meta lookup made on A's behalf)
+				if cl.Log.Count(func(e *sim.Event) bool { return e.Kind == "exec" && e.OpID == opidA }) == 0 {
+					return
+				}
+				if !atomic.CompareAndSwapInt32(&fired, 0, 1) {
+					return
+				}
+				holdStart = time.Now()
+				hold.Store(h)
+				go func() { bDone <- send([]hrpc.Call{callB}, false) }()
+				time.Sleep(4 * time.Millisecond) // B is written while the clearing call is in progress
+			})
+			errsA := send([]hrpc.Call{callA}, false)
+			if atomic.LoadInt32(&fired) == 0 {
+				time.Sleep(3 * time.Millisecond)
+			}
+			wasFired := !atomic.CompareAndSwapInt32(&fired, 0, 2) // 2: too late, the hook stays quiet
+			clearHook.Store(func() {})
+			if errsA[0] != nil {
+				c.Violate(id, "idle:call-failed", fmt.Sprintf("%s: call failed on a healthy connection: %v: %s", where, errsA[0], cs), cs)
+				return
+			}
+			if !wasFired {
+				c.Count("race_clear_not_reached", 1)
+				break
+			}
+			mu.Lock()
+			fc := conns[len(conns)-1]
+			mu.Unlock()
+			settled := false
+			base := fc.Counts()
+			for i := 0; i < 100 && !settled && time.Since(holdStart) < cs.Timeout*4/10; i++ {
+				time.Sleep(3 * time.Millisecond)
+				now := fc.Counts()
+				settled = now[faultconn.Write] == base[faultconn.Write] && now[faultconn.SetReadDeadline] == base[faultconn.SetReadDeadline] && i > 0
+				base = now
+			}
+			if !settled {
+				c.Inconclusive("held-requests-not-settled")
+			} else {
+				dl := fc.ReadDeadline()
+				tw, _ := lastWriteReturn.Load().(time.Time)
+				c.Count("outstanding_deadline_checks", 1)
+				c.Count("race_clear_checks", 1)
+				if dl.IsZero() {
+					c.Violate(id, "silent:no-deadline-while-outstanding", fmt.Sprintf("%s: a request sent while the connection was becoming idle is outstanding and unanswered, but no read deadline is armed: %s", where, cs), cs)
+				} else if dl.Before(tw.Add(cs.Timeout - time.Millisecond)) {
+					c.Violate(id, "silent:deadline-too-early", fmt.Sprintf("%s: armed deadline is %v after the last send, read timeout is %v: %s", where, dl.Sub(tw), cs.Timeout, cs), cs)
+				}
+			}
+			hold.Store((chan struct{})(nil))
+			close(h)
+			if held := time.Since(holdStart); held > cs.Timeout*8/10 {
+				c.Inconclusive("replies-held-too-long")
+				return
+			}
+			select {
+			case errs := <-bDone:
+				if errs[0] != nil {
+					c.Violate(id, "idle:call-failed", fmt.Sprintf("%s: call failed on a healthy connection: %v: %s", where, errs[0], cs), cs)
+					return
+				}
+			case <-time.After(10 * time.Second):
+				c.Violate(id, "idle:calls-stuck", where+": calls did not complete in 10s: "+cs.String(), cs)
+				return
+			}
+			c.Count("zero_crossings", 1)
+			if !quiescent(where) {
+				return
+			}
 		case "idle":
 			time.Sleep(time.Duration(st.N) * cs.Timeout)
 			c.Count("idle_periods", 1)
@@ -358,7 +448,7 @@ func init() {
 		Rule: "seeded request/response sequences on one connection (bare region client or full client; queue size {1,2,100}; " +
 			"read timeout {100,300} ms): steps of unbatched singles, batches, a send whose response is forced to be read before " +
 			"the sender returns from Write, calls cancelled while unanswered (their responses are skipped), responses held and " +
-			"released together; after every step (a quiescent point) the recorded read deadline must be cleared and the " +
+			"released together, a request sent (and left unanswered) while the deadline-clearing call of the previous response is in progress; after every step (a quiescent point) the recorded read deadline must be cleared and the " +
 			"connection open; while requests are held the armed deadline must be >= last send + timeout. Real-time cases add " +
 			"an idle period of 5 timeouts followed by a request on the same connection, and a silent server. distinct = step " +
 			"sequence + configuration; non-trivial = contains an early/cancelled/held step or an idle period",
@@ -371,7 +461,7 @@ func init() {
 		},
 		Floors: func(tier string) map[string]int64 {
 			return map[string]int64{"sequences": 200, "zero_crossings": 1000, "forced_early_responses": 150, "deadline_state_checks": 1000,
-				"outstanding_deadline_checks": 150, "idle_survivals": 8, "silent_detections": 3}
+				"outstanding_deadline_checks": 150, "idle_survivals": 8, "silent_detections": 3, "race_clear_checks": 50}
 		},
 		Run: func(c *fw.Ctx) {
 			r := c.Rand("c18")
